@@ -185,6 +185,7 @@ func GenBearer(t *rapid.T) BearerCase {
 		c.Method = rapid.SampledFrom(methodsAny).Draw(t, "method")
 	}
 	c.Debug = rapid.IntRange(0, 3).Draw(t, "debug-transport") == 0
+	c.UpperCT = c.Body != "" && rapid.IntRange(0, 2).Draw(t, "content-type-capitals") == 0
 	return c
 }
 
@@ -229,6 +230,7 @@ func GenDefault(t *rapid.T) DefaultCase {
 	if rapid.IntRange(0, 2).Draw(t, "rotated") == 0 {
 		r := genCred(t, "R", false)
 		c.Rotated = &r
+		c.SameOp = rapid.Bool().Draw(t, "earlier-request-with-the-same-operation-value")
 	}
 	c.Debug = rapid.IntRange(0, 3).Draw(t, "debug-transport") == 0
 	return c
@@ -350,6 +352,9 @@ func ClassifyBearer(c BearerCase) (bool, []string) {
 	if c.Decoy {
 		l["decoy parameters"] = true
 	}
+	if c.UpperCT && (c.Body == "urlencoded" || c.Body == "multipart") {
+		l["form body announced with its media type in capitals"] = true
+	}
 	if len(c.Scopes) == 0 {
 		l["scopes: none"] = true
 	} else {
@@ -367,6 +372,9 @@ func ClassifyBearer(c BearerCase) (bool, []string) {
 // Authorization header is pre-set), or the applied default contains a transformed byte.
 func ClassifyDefault(c DefaultCase) (bool, []string) {
 	l := map[string]bool{"default=" + c.Default.Kind: true}
+	if c.Rotated != nil && c.SameOp {
+		l["the same operation value was submitted before under another default credential"] = true
+	}
 	if c.Op != nil {
 		l["op="+c.Op.Kind] = true
 	} else {
